@@ -34,8 +34,8 @@ def close(a, b, exact):
 # shared ABF
 # ==========================================================================================
 
-def gen_abf(r, cid):
-    n = r.choice([2, 2, 3, 3, 4])
+def gen_abf(r, cid, big=False):
+    n = r.choice([2, 2, 3, 3, 4, 5, 6] if big else [2, 2, 3, 3, 4])
     nd = r.choice([1, 1, 2, 2, 3])
     nbins = [r.randint(2, 4 if nd < 3 else 3) for _ in range(nd)]
     F = r.choice([1, 2, 2, 3, 4])
@@ -318,12 +318,40 @@ def check_abf(run, exe, model, cases, scratch):
                     tie_ok = False
 
 
+def no_zero_length_runs(events, kinds):
+    """with stepZeroData a run of zero steps deposits a second hill with the step number of the state file and writes a
+    second, different state file with that step number: such runs are outside the premises of the theorems (steps_ok)
+    and are not generated.  kinds: event tag -> (walker key, 'step' | 'restart')"""
+    out = []
+    since = {}
+    skip_next_step_of = None
+    for ev in events:
+        k = kinds.get(ev[0])
+        if k is None:
+            out.append(ev)
+            continue
+        who = k[0](ev)
+        if k[1] == "restart":
+            if since.get(who, 0) < 2:
+                skip_next_step_of = who      # drop the restart and the repeated step that follows it
+                continue
+            since[who] = 0
+            out.append(ev)
+        else:
+            if skip_next_step_of == who:
+                skip_next_step_of = None
+                continue
+            since[who] = since.get(who, 0) + 1
+            out.append(ev)
+    return out
+
+
 # ==========================================================================================
 # file-based multiple-walker metadynamics, walkers sharing files directly
 # ==========================================================================================
 
-def gen_meta(r, cid):
-    n = r.choice([2, 2, 3, 3, 4])
+def gen_meta(r, cid, big=False):
+    n = r.choice([2, 2, 3, 3, 4, 5, 6] if big else [2, 2, 3, 3, 4])
     hillfreq = r.choice([1, 1, 2])
     upfreq = r.choice([1, 2, 2, 3])
     lock = r.random() < 0.5
@@ -371,8 +399,11 @@ def gen_meta(r, cid):
                 events.append(["s", w, lastbin[w]])
             else:
                 do_step(w)
+    szd = r.random() < 0.2
+    if szd:
+        events = no_zero_length_runs(events, {"s": (lambda e: e[1], "step"), "r": (lambda e: e[1], "restart")})
     return {"kind": "meta", "id": cid, "n": n, "nbins": NB, "hillfreq": hillfreq, "upfreq": upfreq,
-            "restartfreq": restartfreq, "lockstep": lock, "grids": r.random() < 0.7, "events": events}
+            "restartfreq": restartfreq, "lockstep": lock, "grids": r.random() < 0.7, "szd": szd, "events": events}
 
 
 def meta_primitives(case):
@@ -387,6 +418,8 @@ def meta_primitives(case):
     D = [[] for _ in range(n)]
     prims = []
     Dafter = []
+    state_n = [0] * n           # how many hills the state file of each walker holds
+    case["_state_n_after"] = []
     for ev in case["events"]:
         w = ev[1]
         p = []
@@ -398,7 +431,7 @@ def meta_primitives(case):
             rel0 = first[w]
             first[w] = False
             t[w] = nt
-            if (not rel0) and nt % case["hillfreq"] == 0:
+            if ((not rel0) or case.get("szd")) and nt % case["hillfreq"] == 0:
                 p.append(("dep", w, nt, ev[2]))
                 D[w].append((nt, ev[2]))
             if nt % case["upfreq"] == 0:
@@ -407,13 +440,16 @@ def meta_primitives(case):
             rf = case["restartfreq"][w]
             if rf > 0 and (not rel0) and nt % rf == 0:
                 p.append(("wstate", w, nt))
+                state_n[w] = len(D[w])
         else:
             p.append(("wstate", w, t[w]))
             p.append(("rrestart", w))
             p.append(("setup", w, t[w], bool(ev[2])))
+            state_n[w] = len(D[w])
             first[w] = True
         prims.append(p)
         Dafter.append([list(x) for x in D])
+        case["_state_n_after"].append(list(state_n))
     return prims, Dafter
 
 
@@ -496,6 +532,8 @@ def check_meta(run, exe, model, cases, scratch, fixflags="1 1"):
         nrest = sum(1 for e in c["events"] if e[0] == "r")
         run.dist("meta:restarts" if nrest else "meta:no-restart")
         run.dist("meta:useGrids-on" if c.get("grids", True) else "meta:useGrids-off")
+        if c.get("szd"):
+            run.dist("meta:stepZeroData")
         run.count(json.dumps([c["events"], c["restartfreq"], c["upfreq"], c["hillfreq"]]), True)
         run.sample({"kind": "meta", "n": n, "hillfreq": c["hillfreq"], "upfreq": c["upfreq"], "restartfreq": c["restartfreq"],
                     "lockstep": c["lockstep"], "events": c["events"][:14], "more_events": max(0, len(c["events"]) - 14)}, cap=4)
@@ -598,7 +636,7 @@ def check_meta(run, exe, model, cases, scratch, fixflags="1 1"):
                     # ---- completeness after an exchange: everything visible before this event is there
                     if did_share and snap[p]["state_step"] is not None and reclen:
                         S = snap[p]["state_step"]
-                        n_state = sum(1 for (it, _) in Dp if it <= S)
+                        n_state = c["_state_n_after"][k - 1][p] if k > 0 else 0
                         n_file = ((snap[p]["hills_size"] or 0) + 1) // reclen
                         if kpre < n_state + n_file:
                             sig = "meta:visible-hills-missing" + (":lockstep" if c["lockstep"] else ":async")
@@ -626,7 +664,11 @@ def check_meta(run, exe, model, cases, scratch, fixflags="1 1"):
                 irec = 0 if ipos <= 0 else (ipos + 1) // reclen if reclen and (ipos + 1) % reclen == 0 else -1
                 isum = {"sync": int(mir["in_sync"]), "S": int(mir["state_step"]), "pos": irec, "cont": show(cont)}
                 msum = {"sync": mm["sync"], "S": mm["S"], "pos": mm["pos"], "cont": show(counts_of(mm["cont"], NB))}
-                if isum != msum or not mq["ok"]:
+                if not mq["ok"] and c.get("szd") and isum == msum:
+                    # a run of zero steps with stepZeroData writes two different state files with one step number: outside the
+                    # premises of the theorems (steps_ok); the states are still compared
+                    run.dist("meta:szd-zero-length-run-outside-premises")
+                elif isum != msum or not mq["ok"]:
                     isum["pos_bytes"] = ipos
                     isum["reclen"] = reclen
                     run.mismatch("meta", {"case": c, "event": k, "reader": w, "peer": p}, isum, dict(msum, trace_ok=mq["ok"]))
@@ -687,8 +729,12 @@ def gen_view(r, cid, robust=False):
                 events.append(["pl", r.choice([None, None, 0, 5, 9, 10, 30, 60, 70])])
             else:
                 events.append(["pg", r.choice([None, None, 1, 2, 3, 4, 10, 20, 30])])
+    szd = r.random() < 0.2
+    if szd:
+        events = no_zero_length_runs(events, {"ps": (lambda e: "p", "step"), "pr": (lambda e: "p", "restart"),
+                                              "rs": (lambda e: "r", "step"), "rr": (lambda e: "r", "restart")})
     c = {"kind": "view", "id": cid, "n": 2, "nbins": NB, "hillfreq": hillfreq, "upfreq": upfreq,
-         "restartfreq": restartfreq, "robust": robust, "grids": r.random() < 0.7, "events": events}
+         "restartfreq": restartfreq, "robust": robust, "grids": r.random() < 0.7, "szd": szd, "events": events}
     if robust:
         c["late_register"] = r.random() < 0.7
         events.append(["pg", None])
@@ -720,7 +766,7 @@ def check_view(run, exe, model, cases, scratch, fixflags="1 1"):
         first = {"p": True, "r": True}
         D = {"p": [], "r": []}
         rfq = {"r": c["restartfreq"][0], "p": c["restartfreq"][1]}
-        toks = ["u,0,0"]
+        toks = ["u,0,0"] + (["rv,0"] if c.get("late_register") else [])
         lens = set(rec["reclen"] for rec in out if rec.get("reclen"))
         if len(lens) > 1:
             run.dist("view:records-of-different-length")
@@ -731,6 +777,9 @@ def check_view(run, exe, model, cases, scratch, fixflags="1 1"):
         Dp_at = {}
         mid = False                # between the two halves of a state-file rewrite of P, as R sees it
         mid_step = 0
+        pn = 0                     # hills in P's state file; vn: in the state file that R can see
+        vn = 0
+        vn_at = {}
         inside = False             # (kept for the report) R has exchanged in such a window
         inside_at = {}
         for k, rec in enumerate(out):
@@ -739,14 +788,19 @@ def check_view(run, exe, model, cases, scratch, fixflags="1 1"):
             if ev[0] in ("ps", "pr", "ph", "pb") and mid:
                 toks.append("wa,%d" % mid_step)
                 mid = False
+                vn = pn
             if ev[0] == "pt":
                 toks.append("sv,%d" % (0 if rec["state_partial"] else 1))
+            if ev[0] == "pl":
+                toks.append("lv,%d" % rec["lv"])
+            if ev[0] == "pg":
+                toks.append("rv,%d" % rec["rv"])
             if ev[0] in ("ps", "rs"):
                 nt = (t[who] if t[who] is not None else 0) if first[who] else t[who] + 1
                 rel0 = first[who]
                 first[who] = False
                 t[who] = nt
-                if (not rel0) and nt % c["hillfreq"] == 0:
+                if ((not rel0) or c.get("szd")) and nt % c["hillfreq"] == 0:
                     D[who].append((nt, ev[1]))
                     if who == "p":
                         toks.append("d,%d,%d" % (nt, ev[1]))
@@ -756,16 +810,27 @@ def check_view(run, exe, model, cases, scratch, fixflags="1 1"):
                     if mid:
                         inside = True
                 if rfq[who] > 0 and (not rel0) and nt % rfq[who] == 0:
+                    if who == "p":
+                        pn = len(D["p"])
                     if who == "p" and len(ev) > 2 and ev[2] == "split":
                         toks.append("wb")
                         mid = True
                         mid_step = nt
                     else:
                         toks.append("w,%d" % nt if who == "p" else "o")
+                        if who == "p":
+                            vn = pn
+                            # (a state file identical to the previous one is not shown again by the controller: what the
+                            # reader sees of it stays what it was)
+                            toks.append("sv,%d" % (0 if rec["state_partial"] else 1))
             elif ev[0] == "pr":
                 # the controller presents the writer's files to the reader under fixed names: for the reader a restart of
                 # the writer with a new output prefix is a restart under the same names (new names: direct mode)
-                toks += ["w,%d" % t["p"], "u,%d,0" % t["p"]]
+                # (setup_output rewrites the list file and the registry record; what the reader sees of them is still what
+                # the controller shows)
+                toks += ["w,%d" % t["p"], "u,%d,0" % t["p"], "rv,%d" % rec["rv"], "lv,%d" % rec["lv"],
+                         "sv,%d" % (0 if rec["state_partial"] else 1)]
+                pn = vn = len(D["p"])
                 first["p"] = True
             elif ev[0] == "rr":
                 toks += ["o", "r"]
@@ -777,12 +842,13 @@ def check_view(run, exe, model, cases, scratch, fixflags="1 1"):
                 qat[k] = sum(1 for x in toks if x == "q")
                 toks.append("q")
             Dp_at[k] = list(D["p"])
+            vn_at[k] = vn
             rec["Dr"] = list(D["r"])
             inside_at[k] = inside
             if bool(rec.get("mid")) != mid:
                 raise V.InfraError("C14 view bookkeeping out of step with the controller at event %d of %s" % (k, c["id"]))
         mres = None
-        if not c["robust"] and reclen:
+        if reclen:
             rc, mout, err = V.run_lines(model, ["META %s %s" % (fixflags, " ".join(toks))], timeout=600)
             if rc != 0 or len(mout) != 1:
                 raise V.InfraError("C14 model driver failed: rc=%s %s" % (rc, err[-500:]))
@@ -838,7 +904,7 @@ def check_view(run, exe, model, cases, scratch, fixflags="1 1"):
                     break
                 if shared_at.get(k) and reclen and rec.get("files_ok", True) and rec.get("view_state_step") is not None:
                     S = rec["view_state_step"]
-                    n_state = sum(1 for (it, _) in Dp if it <= S)
+                    n_state = vn_at[k]
                     n_file = (rec["view_hills_bytes"] + 1) // reclen
                     if kpre < n_state + n_file:
                         run.violation("view:visible-hills-missing" + (":exchange-inside-state-rewrite" if known_hole else ""), "after its exchange in event %d the reader holds %d hills of its peer (bins %s) although the "
@@ -862,7 +928,9 @@ def check_view(run, exe, model, cases, scratch, fixflags="1 1"):
                 irec = 0 if ipos <= 0 else (ipos + 1) // reclen if reclen and (ipos + 1) % reclen == 0 else -1
                 isum = {"sync": int(mir["in_sync"]), "S": int(mir["state_step"]), "pos": irec, "cont": show(cont)}
                 msum = {"sync": mm["sync"], "S": mm["S"], "pos": mm["pos"], "cont": show(counts_of(mm["cont"], NB))}
-                if isum != msum or not mq["ok"]:
+                if not mq["ok"] and c.get("szd") and isum == msum:
+                    run.dist("view:szd-zero-length-run-outside-premises")
+                elif isum != msum or not mq["ok"]:
                     isum["pos_bytes"] = ipos
                     run.mismatch("view", {"case": c, "event": k, "bytes": rec["view_hills_bytes"]}, isum, dict(msum, trace_ok=mq["ok"]))
                     tie_ok = False
@@ -872,8 +940,8 @@ def check_view(run, exe, model, cases, scratch, fixflags="1 1"):
 # shared eABF: CZAR gather
 # ==========================================================================================
 
-def gen_czar(r, cid):
-    n = r.choice([2, 3, 4])
+def gen_czar(r, cid, big=False):
+    n = r.choice([2, 3, 4, 5, 6] if big else [2, 3, 4])
     nb = r.randint(3, 5)
     T = r.randint(4, 9)
     steps = [[(r.randint(0, nb - 1), r.choice([0.5, 0.25, 0.75]), V.dyadic(r, -4, 4)) for _ in range(n)] for _ in range(T)]
@@ -892,7 +960,15 @@ def check_czar(run, exe, model, cases, scratch):
             run.violation("czar:gather-deadlock", "the walkers did not complete the collective CZAR gather (%s)" % str(e)[:200], {"kind": "czar", "case": c})
             continue
         lines = []
-        for (t, dumps, pr) in res:
+        wrapped = [(t, w_, k_) for (t, dumps, pr, before) in res for w_, d in enumerate(list(dumps) + list(before)) if d
+                   for k_ in ("cnt", "lcnt", "ocnt", "zcnt", "gzcnt") if d.get(k_) and any(x >= 2 ** 62 for x in d[k_])]
+        if wrapped:
+            t, w_, k_ = wrapped[0]
+            run.violation("czar:count-wrapped-around", "eABF walkers: at the gather of step %d a count grid (%s) of walker %d holds a value >= 2^62: an unsigned "
+                          "count was decremented below zero (a snapshot that is not what it should be was subtracted from the counts)" % (t, k_, w_ % c["n"]),
+                          {"kind": "czar", "case": c, "step": t})
+            continue
+        for (t, dumps, pr, before) in res:
             if any(d is None or d.get("zcnt") is None for d in dumps):
                 run.violation("czar:no-state", "a walker printed no CZAR state after the gather at step %d" % t, {"kind": "czar", "case": c})
                 lines = None
@@ -904,7 +980,36 @@ def check_czar(run, exe, model, cases, scratch):
         rc, mout, err = V.run_lines(model, lines, timeout=300)
         if rc != 0 or len(mout) != len(lines):
             raise V.InfraError("C14 model driver failed: rc=%s %s" % (rc, err[-500:]))
-        for (t, dumps, pr), mo in zip(res, mout):
+        # the gather as an operation of the model (czar_gather_step): what every walker held before -> what it must hold after
+        glines = []
+        def gfmt(d):
+            return ";".join([",".join(str(x) for x in d[k_]) for k_ in ("cnt", "lcnt", "ocnt", "zcnt")] +
+                            [",".join(V.hexf(x) for x in d[k_]) for k_ in ("sum", "lsum", "osum", "zsum")])
+        for (t, dumps, pr, before) in res:
+            glines.append("GATHER %d %d %d %s" % (c["n"], len(before[0]["cnt"]), len(before[0]["sum"]), " ".join(gfmt(d) for d in before)))
+        rc, gout, err = V.run_lines(model, glines, timeout=300)
+        if rc != 0 or len(gout) != len(glines):
+            raise V.InfraError("C14 model driver failed: rc=%s %s" % (rc, err[-500:]))
+        frame_bad = False
+        for (t, dumps, pr, before), go in zip(res, gout):
+            tk = go.split()
+            for w_, (d, mw) in enumerate(zip(dumps, tk[1:1 + c["n"]])):
+                fields = ("cnt", "lcnt", "ocnt", "zcnt", "sum", "lsum", "osum", "zsum")
+                mvals = [[(float.fromhex(x) if f_.endswith("sum") else int(x)) for x in part.split(",")] for f_, part in zip(fields, mw.split(";"))]
+                diff = [f_ for f_, mv in zip(fields, mvals) if list(d[f_]) != mv]
+                if diff:
+                    run.mismatch("czar:frame", {"case": c, "step": t, "walker": w_, "fields": diff},
+                                 {f_: d[f_] for f_ in diff}, "czar_gather_step leaves these grids as they were: %s" % {f_: before[w_][f_] for f_ in diff})
+                    run.violation("czar:gather-changes-other-grids", "the CZAR gather at step %d (write_output_files between two exchanges) changed %s of walker %d: "
+                                  "before %s, after %s" % (t, diff, w_, {f_: before[w_][f_] for f_ in diff}, {f_: d[f_] for f_ in diff}),
+                                  {"kind": "czar", "case": c, "step": t})
+                    frame_bad = True
+                    break
+            if frame_bad:
+                break
+        if frame_bad:
+            continue
+        for (t, dumps, pr, before), mo in zip(res, mout):
             g = dumps[0]
             # oracle on the implementation alone: replica 0's gathered grids = sum of every walker's z grids, each once
             ecnt = [sum(d["zcnt"][i] for d in dumps) for i in range(len(g["zcnt"]))]
@@ -939,12 +1044,16 @@ def check_czar(run, exe, model, cases, scratch):
 # OPES with multiple walkers
 # ==========================================================================================
 
-def gen_opes(r, cid):
-    n = r.choice([2, 3, 4])
+def gen_opes(r, cid, big=False):
+    n = r.choice([2, 3, 4, 5, 6] if big else [2, 3, 4])
     pace = r.choice([1, 2, 3])
     T = r.randint(3, 9)
     steps = [[V.dyadic(r, -8, 8, bits=4) for _ in range(n)] for _ in range(T)]
-    return {"kind": "opes", "id": cid, "n": n, "pace": pace, "steps": steps}
+    variant = r.choice(["plain", "plain", "compress", "nlist", "adaptive"])
+    if variant != "plain":
+        # close positions, so that kernels are merged / neighbour lists differ / the adaptive width matters
+        steps = [[V.dyadic(r, -1, 1, bits=4) for _ in range(n)] for _ in range(T + 4)]
+    return {"kind": "opes", "id": cid, "n": n, "pace": pace, "variant": variant, "steps": steps}
 
 
 def check_opes(run, exe, model, cases, scratch):
@@ -971,17 +1080,22 @@ def check_opes(run, exe, model, cases, scratch):
                 run.violation("opes:walkers-differ", "at step %d the walkers hold different kernel lists: %s" %
                               (t, [[k[1] for k in d["kernels"]] for d in dumps]), {"kind": "opes", "case": c, "step": t})
                 break
-            exp = [x for rd in rounds for x in rd]
-            got = [V.hexf(float.fromhex(k[1])) for k in dumps[0]["kernels"]]
-            if got != exp:
-                run.violation("opes:kernels-not-the-contributions", "at step %d the kernel centres are %s, the walkers were fed %s at the deposition steps (rank order)"
-                              % (t, got, exp), {"kind": "opes", "case": c, "step": t})
-                break
             # the normalisation: bit-identical on all walkers (sum of weights, of squared weights, neff, rct, zed, kernel norm, counter)
             norm = [tuple(d.get(x) for x in ("sumw", "sumw2", "neff", "rct", "zed", "kdenorm", "counter")) for d in dumps]
             if any(x != norm[0] for x in norm[1:]):
                 run.violation("opes:normalisation-differs", "at step %d the walkers hold different normalisations (sumw, sumw2, neff, rct, zed, kdenorm, counter): %s"
                               % (t, norm), {"kind": "opes", "case": c, "step": t})
+                break
+            run.dist("opes:%s" % c.get("variant", "plain")) if t == 0 else None
+            if c.get("variant", "plain") != "plain":
+                # kernel compression, neighbour lists, adaptive width: what every walker holds is a function of the same
+                # gathered data, so it must still be the same bit for bit (checked above); the rest needs the plain kernels
+                continue
+            exp = [x for rd in rounds for x in rd]
+            got = [V.hexf(float.fromhex(k[1])) for k in dumps[0]["kernels"]]
+            if got != exp:
+                run.violation("opes:kernels-not-the-contributions", "at step %d the kernel centres are %s, the walkers were fed %s at the deposition steps (rank order)"
+                              % (t, got, exp), {"kind": "opes", "case": c, "step": t})
                 break
             if t == 0:
                 base = dumps[0]
@@ -1019,6 +1133,42 @@ def check_opes(run, exe, model, cases, scratch):
             if any(ml != [V.hexf(float.fromhex(k[1])) for k in d["kernels"]] for ml, d in zip(mlists, dumps)) or len(mlists) != len(dumps):
                 run.mismatch("opes", {"case": c, "step": t}, [[k[1] for k in d["kernels"]] for d in dumps], mlists)
                 break
+
+
+# ==========================================================================================
+# shared ABF walkers whose grids differ in size: must be refused, not combined
+# ==========================================================================================
+
+def check_different_grids(run, exe, scratch):
+    for (nb0, nb1) in ((4, 5), (5, 4)):
+        dirs = []
+        for i in range(2):
+            d = os.path.join(scratch, "dg%d" % i)
+            if os.path.exists(d):
+                import shutil as _sh
+                _sh.rmtree(d, ignore_errors=True)
+            os.makedirs(d)
+            dirs.append(d)
+        run.count("different-grids:%d/%d" % (nb0, nb1), True)
+        run.dist("abf:different-grids")
+        try:
+            with W.Team(exe, 2, dirs, timeout_ms=3000) as T:
+                T.all_do(lambda i: scen.abf_setup({"nd": 1, "nbins": [nb0 if i == 0 else nb1], "freq": 2}), 20)
+                res = None
+                for t in range(3):
+                    res = T.all_do(lambda i: ["pos 1 0 0 %s" % float(0.5 + t).hex(), "eforce 1 0 0 0x1p+0", "step", "errtext", "dumpshared a"], 30)
+                errs = [[x for x in r if x.startswith("STEP")][0] for r in res]
+                d0 = scen.parse_shared(res[0])
+        except W.WalkerTimeout as e:
+            run.violation("abf:different-grids-hang", "two shared-ABF walkers with %d and %d bins: a walker stopped answering at the exchange (%s)" % (nb0, nb1, str(e)[:120]),
+                          {"kind": "different-grids", "nbins": [nb0, nb1]})
+            continue
+        # the exchange of step 2 must fail with an error on at least one side, and replica 0 must not have combined anything:
+        # its counts are its own two samples (steps 1 and 2)
+        if all("err=ok" in e for e in errs) or sum(d0["cnt"]) != 2:
+            run.violation("abf:different-grids-combined", "two shared-ABF walkers with %d and %d bins exchanged at step 2 without an error (%s) or replica 0 "
+                          "combined data of a different grid (its counts %s; it sampled twice)" % (nb0, nb1, errs, d0["cnt"]),
+                          {"kind": "different-grids", "nbins": [nb0, nb1]})
 
 
 # ==========================================================================================
@@ -1099,14 +1249,16 @@ def check(run):
                        "2-4 real walker processes and on the extracted model; distinct = distinct event list + frequencies")
     try:
         check_rewrite_order(run, exe, scratch)
+        check_different_grids(run, exe, scratch)
         run_cases(run, exe, model, load_corpus(), scratch)
         na, nm, nv, nr = (60, 45, 30, 12) if quick else (1500, 1200, 800, 300)
-        cases = [gen_abf(r, "a%d" % i) for i in range(na)]
-        cases += [gen_meta(r, "m%d" % i) for i in range(nm)]
+        big = not quick      # more than four walkers: thorough tier only
+        cases = [gen_abf(r, "a%d" % i, big) for i in range(na)]
+        cases += [gen_meta(r, "m%d" % i, big) for i in range(nm)]
         cases += [gen_view(r, "v%d" % i) for i in range(nv)]
         cases += [gen_view(r, "x%d" % i, robust=True) for i in range(nr)]
-        cases += [gen_czar(r, "z%d" % i) for i in range(8 if quick else 150)]
-        cases += [gen_opes(r, "o%d" % i) for i in range(8 if quick else 150)]
+        cases += [gen_czar(r, "z%d" % i, big) for i in range(8 if quick else 150)]
+        cases += [gen_opes(r, "o%d" % i, big) for i in range(8 if quick else 150)]
         run_cases(run, exe, model, cases, scratch)
     finally:
         leftover = V.sh(["pgrep", "-f", exe])[1].split()
